@@ -217,6 +217,27 @@ theorem withPair_ok (needle : Slice) (p : Pair) (hp : p.ValidFor needle) (c : Ct
       .ok (some ⟨p, needle.getD p.index1.toNat, needle.getD p.index2.toNat⟩) c := by
   simp [withPair, Slice.get, hp.lt1, hp.lt2, bind, M.bind, pure, M.pure]
 
+/-- `Finder::with_pair(needle, pair)` for ANY pair (e.g. one selected on another, longer
+needle): it either builds the finder or panics on the bounds-checked `needle[index]`; it
+panics exactly when an offset lies outside the needle, and in both cases the counter (hence
+the load trace) is untouched: nothing outside the needle is ever read. -/
+theorem withPair_total (needle : Slice) (p : Pair) (c : Ctr) :
+    (p.index1.toNat < needle.len ∧ p.index2.toNat < needle.len ∧
+      withPair needle p c =
+        .ok (some ⟨p, needle.getD p.index1.toNat, needle.getD p.index2.toNat⟩) c) ∨
+    ((¬ (p.index1.toNat < needle.len ∧ p.index2.toNat < needle.len)) ∧
+      ∃ site, withPair needle p c = .fault (.panic site)) := by
+  by_cases h1 : p.index1.toNat < needle.len
+  · by_cases h2 : p.index2.toNat < needle.len
+    · left
+      exact ⟨h1, h2, by simp [withPair, Slice.get, h1, h2, bind, M.bind, pure, M.pure]⟩
+    · right
+      exact ⟨fun h => h2 h.2, "with_pair: needle[usize::from(pair.index2())]",
+        by simp [withPair, Slice.get, h1, h2, bind, M.bind, pure, M.pure, fail]⟩
+  · right
+    exact ⟨fun h => h1 h.1, "with_pair: needle[usize::from(pair.index1())]",
+      by simp [withPair, Slice.get, h1, bind, M.bind, fail]⟩
+
 /-- `Finder::new(needle)`: `None` iff the needle is shorter than 2, no fault. -/
 theorem Finder.new_correct (needle : Slice) (c : Ctr) :
     ∃ r c', Finder.new needle c = .ok r c' ∧ (r = none ↔ needle.len < 2) ∧
